@@ -372,6 +372,65 @@ struct FindRecv {
   friend Sched tag_invoke(tag_t<get_scheduler>, const FindRecv& r) noexcept { return r.sched; }
 };
 
+// A scheduler with its own bulk_schedule: when the receiver's execution policy is parallel it launches the indices in order
+// (testing the stop token before each launch) but runs the launched ones in a generated order; sequenced receivers are
+// visited strictly in index order.  It stands for "all worker interleavings when run on a multi-threaded
+// scheduler": whatever a concurrent scheduler does is, at set_next granularity, one of these orders.
+struct PermSched {
+  uint64_t seed = 0;
+  struct schedule_sender {
+    template <template <class...> class V, template <class...> class T> using value_types = V<T<>>;
+    template <template <class...> class V> using error_types = V<>;
+    static constexpr bool sends_done = false;
+    static constexpr blocking_kind blocking = blocking_kind::always_inline;
+    template <class R> struct op { R r; void start() noexcept { unifex::set_value(std::move(r)); } };
+    template <class R> friend op<remove_cvref_t<R>> tag_invoke(tag_t<connect>, schedule_sender, R&& r) { return op<remove_cvref_t<R>>{(R &&) r}; }
+  };
+  schedule_sender schedule() const noexcept { return {}; }
+  friend bool operator==(PermSched a, PermSched b) noexcept { return a.seed == b.seed; }
+  friend bool operator!=(PermSched a, PermSched b) noexcept { return a.seed != b.seed; }
+  template <class Integral>
+  struct bulk_sender {
+    uint64_t seed; Integral n;
+    template <template <class...> class V, template <class...> class T> using value_types = V<T<>>;
+    template <template <class...> class V, template <class...> class T> using next_types = V<T<Integral>>;
+    template <template <class...> class V> using error_types = V<>;
+    static constexpr bool sends_done = true;
+    static constexpr blocking_kind blocking = blocking_kind::always_inline;
+    template <class R> struct op {
+      uint64_t seed; Integral n; R r;
+      void start() noexcept {
+        using policy_t = decltype(get_execution_policy(r));
+        constexpr bool any_order = std::is_same_v<policy_t, parallel_policy> || std::is_same_v<policy_t, parallel_unsequenced_policy>;
+        // Tasks are *launched* in index order, the stop token being tested before each launch (find_if.hpp relies on exactly
+        // that: "bulk_schedule will launch tasks (or at least, test for cancellation) in iteration-space order"); launched
+        // tasks *run* in a generated order, interleaved with further launches, as on a pool of workers.
+        auto tok = get_stop_token(r);
+        std::vector<Integral> ready; uint64_t x = seed | 1; bool stopped = false; Integral next = 0;
+        auto rnd = [&] { x ^= x << 13; x ^= x >> 7; x ^= x << 17; return x; };
+        while (next < n || !ready.empty()) {
+          bool launch = next < n && !stopped && (!any_order || ready.empty() || rnd() % 3 != 0);
+          if (next < n && !stopped && !launch && ready.empty()) launch = true;
+          if (launch) {
+            if (tok.stop_requested()) { stopped = true; continue; }
+            ready.push_back(next++);
+            if (!any_order) { Integral i = ready.back(); ready.pop_back(); unifex::set_next(r, Integral(i)); }
+          } else if (!ready.empty()) {
+            size_t k = (size_t)(rnd() % ready.size());
+            Integral i = ready[k]; ready.erase(ready.begin() + (long)k);
+            unifex::set_next(r, Integral(i));
+          } else break;   // stopped and nothing left to run
+        }
+        if (stopped) { unifex::set_done(std::move(r)); return; }
+        unifex::set_value(std::move(r));
+      }
+    };
+    template <class R> friend op<remove_cvref_t<R>> tag_invoke(tag_t<connect>, bulk_sender s, R&& r) { return op<remove_cvref_t<R>>{s.seed, s.n, (R &&) r}; }
+  };
+  template <class Integral>
+  friend bulk_sender<Integral> tag_invoke(tag_t<bulk_schedule>, PermSched s, Integral n) noexcept { return {s.seed, n}; }
+};
+
 bool known(const char* sig) {
   std::string k = vk::ctx().arg("known");
   return ("," + k + ",").find(std::string(",") + sig + ",") != std::string::npos;
@@ -407,6 +466,15 @@ void mode_find_if(vk::Choice& c, bool parallel) {
     long nc = (n / 32) > 4 ? 32 : ((n + 4) / 4); long cs = (n + nc) / nc;
     if (cs * (nc - 1) > n) { cx.discard = true; cx.discard_why = "known:find_if_out_of_range"; return; }
   }
+  // (derived from the hash of the decoded case: recorded byte strings keep their meaning unless --legacy=1 is absent and the hash says so)
+  const bool permuting = parallel && cx.argi("legacy", 0) == 0 && c.h % 3 == 0;
+  if (permuting) {
+    PermSched ps{c.h / 3}; c.mix(99);
+    cx.desc += vk::sfmt(" [scheduler with its own bulk_schedule: tasks launched in order, run in a generated order (seed %llx)]", (unsigned long long)ps.seed);
+    cx.label("find_if/par/permuting-bulk_schedule");
+    auto pred = [](const int& v, int param) noexcept { return v == param; };
+    run_op(st, find_if(just(CheckedIt{0}, CheckedIt{n}, 7), pred, par), FindRecv<PermSched>{&st, ps, &result, &extra, stoppable}, true);
+  } else
   with_sched(sk, [&](auto sched) {
     using S = decltype(sched);
     auto pred = [](const int& v, int param) noexcept { return v == param; };
